@@ -1,9 +1,21 @@
 #!/bin/bash
 # Offline set-up: nothing to install (the checks use /venv/bin/python with the repository's own
-# packages and the standard library only). Creates scratch directories and warms the numba cache.
+# packages and the standard library only). Creates scratch directories and warms the numba caches.
 HERE="$(cd "$(dirname "${BASH_SOURCE[0]}")" && pwd)"
 cd "$HERE" || exit 1
 mkdir -p .cache/work evidence replays
 export PYTHONHASHSEED=0
-/venv/bin/python -W ignore -c "import sys; sys.path.insert(0, '$HERE'); from vf import env; env.use_repo(); import numpy, numba; print('setup ok', numpy.__version__, numba.__version__)" || exit 1
+/venv/bin/python -W ignore - <<PY || exit 1
+import sys, os, subprocess
+sys.path.insert(0, '$HERE')
+from vf import env
+import numpy, numba
+procs = []
+for tag, extra in (('default', {}), ('bc', {'NUMBA_BOUNDSCHECK': '1'})):
+    e = env.worker_env(extra, tag)
+    procs.append(subprocess.Popen([env.PY, '-W', 'ignore', os.path.join('$HERE', 'tools', 'warm.py')], env=e))
+for p in procs:
+    p.wait()
+print('setup ok', numpy.__version__, numba.__version__)
+PY
 exit 0
